@@ -50,7 +50,9 @@ def configs(draw, wrappers=("interval",), allow_cache0=True, allow_dt=True, allo
     if shapes is None:
         shape = draw(st.one_of(st.just([]), st.lists(st.integers(1, 3), min_size=1, max_size=1),
                                st.lists(st.integers(1, 3), min_size=2, max_size=2),
-                               st.lists(st.integers(1, 3), min_size=2, max_size=2)))
+                               st.lists(st.integers(1, 3), min_size=2, max_size=2),
+                               # many entries: a last-bit difference somewhere is far more likely to show than with 1-9 numbers
+                               st.sampled_from([[64], [16, 3], [7, 5], [200], [2, 3, 4]])))
     else:
         shape = list(draw(st.sampled_from(shapes)))
     lv = draw(st.sampled_from(levy or LEVY))
@@ -125,7 +127,7 @@ def op_lists(draw, cfg, min_ops=1, max_ops=12, max_sweep=40, allow_zero=True, al
     if allow_zero:
         kinds.append("zero")
     if allow_point:
-        kinds += ["pt", "pt"] if cfg["wrapper"] in ("path", "tree") else ["pt"]
+        kinds += ["pt"] * (6 if cfg["wrapper"] == "path" else 2 if cfg["wrapper"] == "tree" else 1)
     special = [n // 2] if n % 2 == 0 else []
     if cfg["t0"] < 0 < cfg["t1"]:
         z = -cfg["t0"] / (cfg["t1"] - cfg["t0"]) * n
@@ -328,7 +330,7 @@ def build(cfg, torchsde, torch):
     wrapper = cfg["wrapper"]
     if wrapper in ("interval", "reverse", "reverse2"):
         kw = dict(t0=cfg["t0"], t1=cfg["t1"], size=shape, dtype=dtype, entropy=cfg["entropy"],
-                  cache_size=cfg["cache_size"], levy_area_approximation=cfg["levy"], tol=cfg["tol"],
+                  cache_size=cfg["cache_size"], levy_area_approximation="".join(list(cfg["levy"])), tol=cfg["tol"],
                   halfway_tree=cfg["halfway"], W=None if W is None else W.clone(), H=None if H is None else H.clone())
         if cfg["dt"] is not None:
             kw["dt"] = cfg["dt"]
@@ -364,22 +366,42 @@ def build(cfg, torchsde, torch):
     have_H = cfg["levy"] in ("space-time", "davie", "foster") and wrapper in ("interval", "reverse", "reverse2")
     have_A = cfg["levy"] in ("davie", "foster") and wrapper in ("interval", "reverse", "reverse2")
 
+    handed = []          # (what, reference handed out by the library, its value at that moment)
+
+    def keep(what, *xs):
+        out = []
+        for x in xs:
+            c = x.clone()
+            if len(handed) < 4000:
+                handed.append((what, x, c))
+            out.append(c)
+        return out
+
     def bm(ta, tb):
         # every tensor is cloned before the harness keeps it: a returned tensor may be (and for single-node queries is) the
-        # very object the Brownian tree holds, and a reference to it would silently follow any later in-place change
+        # very object the Brownian tree holds, and a reference to it would silently follow any later in-place change. The
+        # reference is kept too (meta["handed_out"]): a tensor handed to the caller must not change afterwards either.
         if ta is None:
             # point evaluation
             if wrapper in ("reverse", "reverse2"):
-                return interval(cfg["t0"], tb).clone(), None, None
-            return base(tb).clone(), None, None
+                return keep((ta, tb), interval(cfg["t0"], tb))[0], None, None
+            return keep((ta, tb), base(tb))[0], None, None
         if have_A:
-            w, u, a = base(ta, tb, return_U=True, return_A=True)
-            return w.clone(), u.clone(), a.clone()
+            w, u, a = keep((ta, tb), *base(ta, tb, return_U=True, return_A=True))
+            return w, u, a
         if have_H:
-            w, u = base(ta, tb, return_U=True)
-            return w.clone(), u.clone(), None
-        return base(ta, tb).clone(), None, None
+            w, u = keep((ta, tb), *base(ta, tb, return_U=True))
+            return w, u, None
+        return keep((ta, tb), base(ta, tb))[0], None, None
 
     meta = {"have_H": have_H, "have_A": have_A, "W": W, "H": H, "base": base,
-            "w0": w0 if wrapper in ("path", "tree") else None}
+            "w0": w0 if wrapper in ("path", "tree") else None, "handed_out": handed}
     return bm, interval, meta
+
+
+def modified_after_return(meta):
+    """First tensor handed out by the Brownian object whose contents changed afterwards (None if there is none)."""
+    for what, ref, val in meta["handed_out"]:
+        if ref.shape != val.shape or not ((ref == val) | ((ref != ref) & (val != val))).all():
+            return what
+    return None
